@@ -71,7 +71,7 @@ fn for_instances(cx: &Cx, rep: &mut Report, run: &RoleRun, n: usize, mut f: impl
                 Err(e) => rep.fail("TP-parse", &run.label(), "parse", e, &run.site(), json!({"path": cond_str(&p.cond)})),
                 Ok(i) => {
                     if !i.notes.is_empty() { rep.fail("unanalysable", &run.label(), &format!("hole:{}", i.notes[0].chars().take(40).collect::<String>()), &format!("a template hole could not be printed schematically: {}", i.notes.join("; ")), &run.site(), json!({})); }
-                    if seen.insert(i.text.clone()) { count += 1; f(rep, i, p); }
+                    if seen.insert(i.text.clone()) { count += 1; for (name, msg) in crate::props_hyg::signature_findings(i) { rep.fail("TP-signature", &run.label(), &name, &msg, &run.site(), json!({})); } f(rep, i, p); }
                 }
             }
         }
@@ -101,7 +101,7 @@ fn for_instances_shapes(cx: &Cx, rep: &mut Report, run: &RoleRun, n: usize, want
                 Err(e) => rep.fail("TP-parse", &run.label(), "parse", e, &run.site(), json!({"path": cond_str(&p.cond), "empty": em})),
                 Ok(i) => {
                     if !i.notes.is_empty() { rep.fail("unanalysable", &run.label(), &format!("hole:{}", i.notes[0].chars().take(40).collect::<String>()), &format!("a template hole could not be printed schematically: {}", i.notes.join("; ")), &run.site(), json!({})); }
-                    if seen.insert(i.text.clone()) { count += 1; f(rep, i, p, &em); }
+                    if seen.insert(i.text.clone()) { count += 1; for (name, msg) in crate::props_hyg::signature_findings(i) { rep.fail("TP-signature", &run.label(), &name, &msg, &run.site(), json!({})); } f(rep, i, p, &em); }
                 }
             }
         }
@@ -441,8 +441,16 @@ pub fn c10(cx: &Cx) -> i32 {
         let fprefix = |k: usize| if kind == "struct" { format!("fields[#{k}]") } else { format!("variants[*].fields[#{k}]") };
         let mut n_ok = 0;
         let mut n_err = 0;
+        // non-vacuity: the builder must actually consult `ignore` / `transparent` of every field (a field is taken as
+        // not ignored on a path that never asked)
+        let mut asked_ig = vec![[0usize; 2]; nf];
+        let mut asked_tr = vec![[0usize; 2]; nf];
         for p in &run.paths {
             if shape_path(&p.cond) { continue; }
+            for k in 1..=nf {
+                if let Some(b) = cl.atom(&p.cond, &fprefix(k), "HelperAttributeForDebug", "ignore") { asked_ig[k - 1][b as usize] += 1; }
+                if let Some(b) = cl.atom(&p.cond, &fprefix(k), "HelperAttributeForDebug", "transparent") { asked_tr[k - 1][b as usize] += 1; }
+            }
             let tr: Vec<bool> = (1..=nf).map(|k| cl.atom(&p.cond, &fprefix(k), "HelperAttributeForDebug", "transparent") == Some(true)).collect();
             let ig: Vec<bool> = (1..=nf).map(|k| cl.atom(&p.cond, &fprefix(k), "HelperAttributeForDebug", "ignore") == Some(true)).collect();
             let ntr = tr.iter().filter(|x| **x).count();
@@ -454,6 +462,7 @@ pub fn c10(cx: &Cx) -> i32 {
                     rep.check(ntr <= 1, "DM-debug-mode", &label, "two-transparent-accepted", "two transparent fields are accepted", &site, json!({"path": cs}));
                     let inst = cache.get(v, 2);
                     let Ok(inst) = &*inst else { rep.fail("TP-parse", &label, "parse", "instance does not parse", &site, json!({})); continue };
+                    for (name, msg) in crate::props_hyg::signature_findings(inst) { rep.fail("TP-signature", &label, &name, &msg, &site, json!({})); }
                     let ims = find_impls(&inst.file);
                     let Some(im) = ims.iter().find(|im| ends(&trait_path(im), "fmt::Debug")) else { rep.fail("TP-debug", &label, "no-impl", "no Debug impl", &site, json!({})); continue };
                     let Some(m) = method(im, "fmt") else { rep.fail("TP-debug", &label, "no-fmt", "no fmt method", &site, json!({})); continue };
@@ -478,6 +487,10 @@ pub fn c10(cx: &Cx) -> i32 {
                 _ => {}
             }
         }
+        for k in 1..=nf {
+            rep.check(asked_ig[k - 1][0] > 0 && asked_ig[k - 1][1] > 0, "DM-debug-mode", &label, &format!("ignore-consulted-{k}"), &format!("`#[debug(ignore)]` of field {k} is never consulted (or only one answer is ever taken): an ignored field would be printed like any other"), &site, json!({"paths asking (no, yes)": asked_ig[k - 1]}));
+            rep.check(asked_tr[k - 1][0] > 0 && asked_tr[k - 1][1] > 0, "DM-debug-mode", &label, &format!("transparent-consulted-{k}"), &format!("`#[debug(transparent)]` of field {k} is never consulted (or only one answer is ever taken)"), &site, json!({"paths asking (no, yes)": asked_tr[k - 1]}));
+        }
         rep.analysed.insert(format!("{kind} Debug [{nf} fields] paths ok/err"), json!([n_ok, n_err]));
         rep.floor(&format!("{kind} Debug [{nf} fields] successful paths"), n_ok, if nf == 2 { 50 } else { 2 });
         if nf == 2 { rep.floor(&format!("{kind} Debug refused paths (two transparent fields)"), n_err, 1); }
@@ -485,6 +498,46 @@ pub fn c10(cx: &Cx) -> i32 {
     }
     rep.assumptions = vec!["core::fmt's DebugStruct/DebugTuple builders produce what the standard derive produces for the same calls (trusted)".into(), "names are printed through stringify!(ident) (raw identifiers keep `r#`, see C12 known finding)".into()];
     rep.finish("other", "static analysis: with two schematic fields unrolled (all ignore/transparent combinations), the Debug body must be the formatter-parameter builder chain debug_struct/debug_tuple(name).field(..).finish() over exactly the non-ignored fields in order with their own names and places, or exactly Debug::fmt(field, f) for the single transparent field; two transparent marks are refused", "rule instances = (rule, role, path)")
+}
+
+/// ES-consulted: the attributes that decide which fields a body uses must actually be asked by the builder, with both
+/// answers taken somewhere - a field is "not ignored / without a value / unmarked" on every path that never asked, so
+/// rules that compare the body with the path's own answers pass vacuously when the question is dropped.
+pub fn consulted_rule(cx: &Cx, rep: &mut Report, which: &[&str]) {
+    // (role kind, role variant, mode, element prefixes, owner struct, field, what)
+    let mut specs: Vec<(&str, &str, CollMode, Vec<String>, &str, &str, &str)> = Vec::new();
+    if which.contains(&"Debug") {
+        for k in 1..=2 { for f in ["ignore", "transparent"] {
+            specs.push(("struct", "Debug", CollMode::Unrolled(2), vec![format!("fields[#{k}]")], "HelperAttributeForDebug", f, "#[debug(..)] on a field"));
+            specs.push(("enum", "Debug", CollMode::InnerUnrolled(2), vec![format!("variants[*].fields[#{k}]")], "HelperAttributeForDebug", f, "#[debug(..)] on a variant field"));
+        } }
+    }
+    if which.contains(&"Default") {
+        specs.push(("struct", "Default", CollMode::Summary, vec![String::new()], "HelperAttributeForDefault", "value", "the type-level #[default(expr)]"));
+        specs.push(("struct", "Default", CollMode::Summary, vec!["fields[*]".into()], "HelperAttributeForDefault", "value", "#[default(expr)] on a field"));
+        specs.push(("enum", "Default", CollMode::Unrolled(2), vec![String::new()], "HelperAttributeForDefault", "value", "the type-level #[default(expr)]"));
+        for k in 1..=2 { specs.push(("enum", "Default", CollMode::Unrolled(2), vec![format!("variants[#{k}]")], "HelperAttributes", "default", "the #[default] mark of a variant")); }
+        for k in 1..=2 { specs.push(("enum", "Default", CollMode::Unrolled(2), vec![format!("variants[#{k}].fields[*]")], "HelperAttributeForDefault", "value", "#[default(expr)] on a variant field")); }
+    }
+    let mut runs: BTreeMap<String, (RoleRun, BTreeMap<String, crate::eval::Ty>)> = BTreeMap::new();
+    let mut scratch = Report::new("x", "quick", &cx.verif);
+    let am = crate::cmp::attr_map(&cx.ix, &mut scratch);
+    for (kind, variant, mode, prefixes, owner, field, what) in specs {
+        let Some(r) = role(cx, kind, variant) else { rep.fail("roles", kind, variant, "role not found", "-", json!({})); continue };
+        let key = format!("{kind}/{variant}/{mode:?}");
+        if !runs.contains_key(&key) {
+            let mut roots: BTreeMap<String, crate::eval::Ty> = BTreeMap::new();
+            for (n, t) in role_roots(&cx.ix, r) { roots.insert(n, match &t { syn::Type::Reference(rf) => crate::eval::Ty::from_syn(&rf.elem), o => crate::eval::Ty::from_syn(o) }); }
+            runs.insert(key.clone(), (run(&cx.ix, r, None, mode, &[]), roots));
+        }
+        let (rr, roots) = runs.get(&key).unwrap();
+        let cl = crate::bounds::Classifier { ix: &cx.ix, roots: roots.clone(), am: &am, entry_this: String::new(), entry_common: String::new() };
+        for pre in &prefixes {
+            let mut asked = [0usize; 2];
+            for p in &rr.paths { if let Some(b) = cl.atom(&p.cond, pre, owner, field) { asked[b as usize] += 1; } }
+            rep.check(asked[0] > 0 && asked[1] > 0, "ES-consulted", &format!("{kind}/{variant}"), &format!("{}:{}.{field}", if pre.is_empty() { "type" } else { pre.as_str() }, owner), &format!("{what} (`{field}`) is never consulted by the builder, or only one answer is ever taken: it cannot decide which fields the generated body uses (asked: no on {} paths, yes on {})", asked[0], asked[1]), &rr.site(), json!({}));
+        }
+    }
 }
 
 // =============================================================================================== C18
@@ -507,6 +560,7 @@ pub fn c18(cx: &Cx) -> i32 {
                 let Outcome::Ok(v) = &p.outcome else { continue };
                 let inst = cache.get(v, 1);
                 let Ok(inst) = &*inst else { rep.fail("TP-parse", &label, "parse", "instance does not parse", &site, json!({})); continue };
+                for (name, msg) in crate::props_hyg::signature_findings(inst) { rep.fail("TP-signature", &label, &name, &msg, &site, json!({})); }
                 let cs = cond_str(&p.cond);
                 let ims = find_impls(&inst.file);
                 let Some(im) = ims.iter().find(|im| ends(&trait_path(im), &format!("ops::{variant}"))) else { rep.fail("TP-deref", &label, "no-impl", "no impl generated", &site, json!({})); continue };
@@ -595,6 +649,7 @@ fn check_default_fields(rep: &mut Report, inst: &Instance, label: &str, site: &s
 
 pub fn c11(cx: &Cx) -> i32 {
     let mut rep = cx.report("C11");
+    consulted_rule(cx, &mut rep, &["Default"]);
     crate::misc::helper_name_rule(cx, &mut rep, "HelperAttributeForDefault", "default");
     crate::misc::default_placeholder_rule(cx, &mut rep);
     // ---- struct
@@ -610,6 +665,7 @@ pub fn c11(cx: &Cx) -> i32 {
             let Outcome::Ok(v) = &p.outcome else { rep.fail("DM-default-select", &label, "struct-error", "Default on a struct is refused", &site, json!({"path": cs})); continue };
             let inst = cache.get(v, 2);
             let Ok(inst) = &*inst else { rep.fail("TP-parse", &label, "parse", "instance does not parse", &site, json!({})); continue };
+            for (name, msg) in crate::props_hyg::signature_findings(inst) { rep.fail("TP-signature", &label, &name, &msg, &site, json!({})); }
             n += 1;
             let ims = find_impls(&inst.file);
             let Some(m) = ims.iter().find(|im| ends(&trait_path(im), "default::Default")).and_then(|im| method(im, "default")) else { rep.fail("TP-default-field", &label, "no-impl", "no Default impl / default()", &site, json!({})); continue };
@@ -637,6 +693,12 @@ pub fn c11(cx: &Cx) -> i32 {
             let mut cache = InstCache::default();
             let mut n_ok = 0;
             let mut n_err = 0;
+            // non-vacuity: a mark that is never looked at counts as absent on every path
+            let mut asked = vec![[0usize; 2]; nv];
+            for p in &run.paths { for k in 1..=nv { if let Some(b) = p.cond.get(&format!("variants[#{k}].hattrs.default")) { asked[k - 1][*b as usize] += 1; } } }
+            for k in 1..=nv {
+                rep.check(asked[k - 1][0] > 0 && asked[k - 1][1] > 0, "DM-default-select", &label, &format!("mark-consulted-{k}"), &format!("the `#[default]` mark of variant {k} of {nv} is never consulted (or only one answer is ever taken): a marked variant at that position is not the default"), &site, json!({"paths asking (no, yes)": asked[k - 1]}));
+            }
             for p in &run.paths {
                 let cs = cond_str(&p.cond);
                 let type_value = p.cond.get("hattrs.default") == Some(&true) && p.cond.get("hattrs.default.?.value") == Some(&true);
@@ -657,6 +719,7 @@ pub fn c11(cx: &Cx) -> i32 {
                         n_ok += 1;
                         let inst = cache.get(v, 2);
                         let Ok(inst) = &*inst else { rep.fail("TP-parse", &label, "parse", "instance does not parse", &site, json!({})); continue };
+                        for (name, msg) in crate::props_hyg::signature_findings(inst) { rep.fail("TP-signature", &label, &name, &msg, &site, json!({})); }
                         let ims = find_impls(&inst.file);
                         let Some(m) = ims.iter().find(|im| ends(&trait_path(im), "default::Default")).and_then(|im| method(im, "default")) else { rep.fail("TP-default-field", &label, "no-impl", "no Default impl / default()", &site, json!({})); continue };
                         let mut sem = Sem::new();
@@ -733,13 +796,24 @@ pub fn c09(cx: &Cx) -> i32 {
         let label = format!("impl/{opname}{}", if form == "Assign" { "Assign" } else { "" });
         let mut cache = InstCache::default();
         let mut configs = std::collections::BTreeSet::new();
+        // non-vacuity: a request that is never consulted counts as "not requested" on every path
+        let mut asked = [[0usize; 2]; 2];
+        let mut neg_paths = 0usize;
         for (stp, fl) in &outs {
             let c = &stp.cond;
             // only paths on which every parse step succeeded
             if c.iter().any(|(a, b)| a.starts_with("ok(") && !*b) { continue; }
-            if c.iter().any(|(a, b)| a.contains(".is_some(") && *b) { continue; } // negative impl
+            // a negative impl (`impl !Op for T`) is refused by derive_ex itself
+            if c.iter().any(|(a, b)| a.contains(".is_some(") && *b) {
+                neg_paths += 1;
+                let refused = matches!(fl, Flow::Val(Val::Enum { var, .. }) | Flow::Ret(Val::Enum { var, .. }) if var == "Err");
+                rep.check(refused, "DM-forms", &label, "negative-impl", "a negative impl is not refused", &site, json!({"path": cond_str(c)}));
+                continue;
+            }
             let get = |suffix: &str| c.iter().find(|(a, _)| a.ends_with(suffix)).map(|(_, b)| *b);
             let is_binary = form == "Binary";
+            if let Some(b) = get(".make_binary") { asked[0][b as usize] += 1; }
+            if let Some(b) = get(".make_assign") { asked[1][b as usize] += 1; }
             let (mb, ma, dump) = (get(".make_binary").unwrap_or(false), get(".make_assign").unwrap_or(false), get(".dump").unwrap_or(false));
             // base form flags
             let flags: Vec<(String, bool)> = c.iter().filter(|(a, _)| a.ends_with(").1") || a.ends_with("#.1")).map(|(a, b)| (a.clone(), *b)).collect();
@@ -761,6 +835,7 @@ pub fn c09(cx: &Cx) -> i32 {
             let Some(payload) = payload else { continue };
             let inst = cache.get(&payload, 2);
             let Ok(inst) = &*inst else { if let Err(e) = &*inst { rep.fail("TP-parse", &label, "parse", e, &site, json!({"path": cs})); } continue };
+            for (name, msg) in crate::props_hyg::signature_findings(inst) { rep.fail("TP-signature", &label, &name, &msg, &site, json!({})); }
             configs.insert((is_binary, mb, ma, l_flag, r_flag));
             let ims = find_impls(&inst.file);
             // expected list
@@ -841,6 +916,9 @@ pub fn c09(cx: &Cx) -> i32 {
                 rep.check(ok, "TP-forward", &label, "forwarding-call", &format!("generated `impl {tp} for {}`: the method does not forward once to the user's impl with (self, rhs) in that order, cloning exactly the operands received by reference but needed by value ({why})", ty_text(&im.self_ty)), &site, json!({"path": cs, "body": body.show().chars().take(300).collect::<String>()}));
             }
         }
+        rep.check(neg_paths > 0, "DM-forms", &label, "negative-impl-consulted", "whether the impl is a negative one (`impl !Op for T`) is never asked: derived impls would forward to an impl that does not exist", &site, json!({}));
+        rep.check(asked[0][0] > 0 && asked[0][1] > 0, "DM-forms", &label, "op-request-consulted", "whether `Op` was requested is never consulted for this base (or only one answer is ever taken): the forms it asks for are not generated / always generated", &site, json!({"paths asking (no, yes)": asked[0]}));
+        rep.check(asked[1][1] > 0 && (form == "Assign" || asked[1][0] > 0), "DM-forms", &label, "assign-request-consulted", "whether `OpAssign` was requested is never consulted for this base (or only one answer is ever taken): it is neither generated nor, on an OpAssign impl, refused", &site, json!({"paths asking (no, yes)": asked[1]}));
         rep.analysed.insert(format!("{label} configurations (base kind, Op, OpAssign, lhs ref, rhs ref)"), json!(configs.len()));
         if opname == "Sub" && form == "Binary" { rep.floor("impl-item configurations analysed (Op base)", configs.len(), 9); }
     }
